@@ -182,7 +182,11 @@ func (c *Ctx) implFn(it types.Type) string {
 		c.seenIfaces[k] = true
 		c.seenIfaceList = append(c.seenIfaceList, it)
 		c.declareFun(fn, []string{"Int"}, "Bool")
-		c.assumeAlways(not(app(fn, "0")))
+		func() {
+			defer func(q int) { c.quant = q }(c.quant)
+			c.quant = 0
+			c.assumeAlways(not(app(fn, "0")))
+		}()
 		for _, t := range c.seenTypeList {
 			c.implFact(t, it)
 		}
@@ -195,6 +199,9 @@ func (c *Ctx) implFact(t, it types.Type) {
 	if !ok {
 		return
 	}
+	// closed facts: must be recorded even when first needed under a quantifier
+	defer func(q int) { c.quant = q }(c.quant)
+	c.quant = 0
 	fn := sym("impl." + typeName(it))
 	tag := num(int64(c.prog.typeTag(t)))
 	if types.Implements(t, iface) {
